@@ -27,6 +27,12 @@ mvars == << cfg, fr, s, prog, pc, hist, cut, stream >>
 Fr(c, op, fin, len) ==
   [op |-> op, fin |-> fin, r1 |-> FALSE, r2 |-> FALSE, r3 |-> FALSE, mk |-> (c.role = "server"),
    len |-> len, lk |-> "n", nonmin |-> FALSE, code |-> -1, rs |-> "ok", comp |-> "", plain |-> 0, key |-> "", short |-> 0]
+(* Close reason classes: the text is valid UTF-8 ("ok" ASCII, "u2"/"u3"/"u4" multi-byte sequences, "fffd" the   *)
+(* validly encoded replacement character U+FFFD, "edge" the extremes U+0080 U+07FF U+0800 U+FFFF U+10000        *)
+(* U+10FFFF) or not ("bad" 0xFF bytes, "trunc" a multi-byte sequence cut short at the end, "overlong" C0 80,     *)
+(* "surr" an encoded surrogate ED A0 80, "big" F4 90 80 80 beyond U+10FFFF, "cont" a lone continuation byte).    *)
+GoodReasons == {"ok", "u2", "u3", "u4", "fffd", "edge"}
+BadReasons == {"bad", "trunc", "overlong", "surr", "big", "cont"}
 CloseFr(c, code, rlen) == [Fr(c, OpClose, TRUE, 2 + rlen) EXCEPT !.code = code]
 EmptyClose(c) == Fr(c, OpClose, TRUE, 0)
 
@@ -53,7 +59,7 @@ Annotate(f0, i, c, sw) ==
   LET f == IF f0.len < 0 \/ (f0.comp # "" /\ f0.len = 0) THEN [f0 EXCEPT !.len = 5] ELSE f0   \* compressed payload: representative length
       base == [op |-> f.op, fin |-> f.fin, r1 |-> f.r1, r2 |-> f.r2, r3 |-> f.r3, mk |-> f.mk,
                len |-> f.len, lk |-> f.lk, min |-> ~f.nonmin,
-               code |-> f.code, utf8 |-> (f.rs # "bad"), plain |-> f.plain, comp |-> (f.comp # "")]
+               code |-> f.code, utf8 |-> (f.rs \in GoodReasons), plain |-> f.plain, comp |-> (f.comp # "")]
       huge == f.lk # "n" \/ f.short > 0
   IN IF sw THEN base @@ [arr |-> "none", h2 |-> FALSE, hdrOK |-> FALSE, pgot |-> 0]
      ELSE IF c.frame = 0 \/ i < c.frame THEN
